@@ -7,11 +7,12 @@ from props.engcommon import EngProp
 
 def themed_case(rng, g: EGen, tier):
     """one record set + one query; returns (recs, oracle coq, sel, pipe, kinds)"""
-    theme = rng.choice(["plain", "plain", "json", "logfmt", "ip", "attrs", "attrs", "mixed", "distinct", "distinct2", "rewrite", "rewrite", "decolor", "unpack", "binary"])
+    theme = rng.choice(["plain", "plain", "json", "json", "logfmt", "ip", "attrs", "attrs", "mixed", "distinct", "distinct2", "rewrite", "rewrite", "decolor", "unpack", "binary"])
     if theme in ("distinct2", "rewrite", "decolor", "unpack"):
         return special_case(rng, g, theme)
     n = rng.randint(0, 9)
     jsonl, lfl, deco = [], [], []
+    typed = []          # JSON keys whose value is a bool / object / array in some record
     lines = []
     labels = list(egen.QLABELS)
     pipe = []
@@ -25,6 +26,7 @@ def themed_case(rng, g: EGen, tier):
             jl = egen.JLine(rng, egen.gen_jdoc(rng), malform=rng.choice([None, None, None, None, "cut", "trailing", "array", "bad"]))
             lines.append(jl.text)
             jsonl.append((B(jl.text), jl.coq))
+            typed += [k for k, v in jl.pairs if isinstance(v, (bool, dict, list))]
     elif theme == "logfmt":
         for _ in range(n):
             l = egen.LFLine(rng, malform=rng.random() < 0.15)
@@ -66,6 +68,14 @@ def themed_case(rng, g: EGen, tier):
             pipe.append(g.st_dropkeep(rng.choice(["drop", "keep"]), rng.sample(labels, rng.randint(1, 2)), []))
         else:
             pipe.append(g.line_filter(words=words))
+    if theme == "json" and typed and rng.random() < 0.5:
+        # a number comparison on a label that is present but is not a number (JSON true / object / array): kept with __error__, never dropped
+        l = egen.key_to_label(B(rng.choice(typed))).decode()
+        op = rng.choice(["==", "!=", ">", ">=", "<", "<="])
+        text = rng.choice(["0", "1", "5"])
+        p = {"k": "num", "l": l, "op": op, "text": text, "v": float(text), "coq": "EPNum %s %s (fbits %d)" % (cbytes(B(l)), egen.OPNAME[op], egen.fbits(float(text)))}
+        pipe[0] = g.st_json()          # all fields, so that the typed value is exposed
+        pipe.insert(1, {"k": "filter", "p": p, "coq": "ELabelFilter (%s)" % p["coq"]})
     if theme == "distinct" and not any(s["k"] == "distinct" for s in pipe):
         pipe.insert(rng.randint(0, len(pipe)), g.st_distinct(rng.sample(egen.QLABELS, rng.randint(1, 2))))
         pipe.append(g.line_filter(words=words))      # a line filter AFTER distinct: the D12 shape
